@@ -291,6 +291,8 @@ CONSTANTS
   MaxCrashes = 0
   Ops = {}
   Deviations = {}
+  MaxFaults = 1000
+  FDev = {}
 POSTCONDITION Accepted
 CHECK_DEADLOCK FALSE
 """
@@ -332,7 +334,10 @@ def check(prop, tier):
         model_check(v, prop, tier)
         files, summary, gfile = drive(v, prop, tier, tag)
         # the files are rewritten by validate() only when a known finding is dropped from them
-        mech_files = list(files) if PROPS[prop]["mode"] in ("crash", "power") else []
+        mech_files = list(files)
+        if PROPS[prop]["mode"] == "fault" and tier == "quick":
+            # the fault traces are large (every call of every behaviour failed twice): a seeded third of the shards
+            mech_files = [f for n, f in enumerate(mech_files) if (n + seed()) % 3 == 0]
         validate(v, prop, files, tag)
         if mech_files and not v.violations:
             mechanism(v, prop, mech_files, tag)
